@@ -116,6 +116,8 @@ fn striped_for(s: &[Nucleotide], pssm: &ScoringMatrix<Dna>) -> StripedSequence<D
     // ... or first for a SHORTER one (the missing look-ahead rows are appended by the second call)
     if s.len() % 3 == 2 && pssm.len() > 2 { st.configure_wrap(1 + s.len() % (pssm.len() - 2)); }
     st.configure(pssm);
+    // ... and sometimes a clone of the configured sequence (a clone must carry the look-ahead rows AND their count)
+    if s.len() % 4 == 3 { return st.clone(); }
     st
 }
 
@@ -171,10 +173,21 @@ fn check_scan_max(c: &ScanCase) -> Result<(), String> {
             }
         }
         let m = sc.max().map(|h| (h.position(), h.score()));
+        // the same question asked through the builder chain (a `&mut Scanner`: the provided Iterator::max, which orders hits with
+        // `Ord for Hit`) and through `Ord` on a collected list: the best hit must win there too
+        if c.consumed == 0 {
+            let via_ref = Scanner::new(&pssm, &st).threshold(c.thr).block_size(c.block).max().map(|h| h.score());
+            let all: Vec<lightmotif::scan::Hit> = { let mut s2 = Scanner::new(&pssm, &st); s2.threshold(c.thr).block_size(c.block); s2.collect() };
+            let via_ord = all.iter().max().map(|h| h.score());
+            let direct = m.map(|x| x.1);
+            if via_ref.map(|x| x.to_bits()) != direct.map(|x| x.to_bits()) || via_ord.map(|x| x.to_bits()) != direct.map(|x| x.to_bits()) {
+                panic!("best hit differs by route: by value {:?}, through &mut Scanner {:?}, Ord on the hit list {:?}", direct, via_ref, via_ord);
+            }
+        }
         (taken, m)
     }));
     match got {
-        Err(_) => Err("panic".into()),
+        Err(_) => Err(format!("panic: {}", LAST_PANIC.lock().map(|g| g.clone()).unwrap_or_default())),
         Ok((taken, m)) => {
             let rest: Vec<&(usize, f32)> = want.iter().filter(|(p, _)| !taken.contains(p)).collect();
             match m {
@@ -271,6 +284,10 @@ fn main() {
                            if unit.is_empty() || unit.starts_with("scan_") { for w in ["next", "max"] { let r = sweep_scan(w, tier, seed); total += r.0; if let Some(f) = r.1 { fails.push(f); } } } }
                 "C09" | "C10" => { let (n, f) = sweeps::sweep_c09(tier, seed); total += n; fails.extend(f.into_iter().filter(|x| (pid == "C10") == x.contains("_rc\""))); }
                 "C16" => { let (n, f) = sweeps::sweep_c16(tier, seed); total += n; fails.extend(f); }
+                // C06 (memory safety): the functional sweeps of every property whose code has unsafe kernels; a stray read / write
+                // shows either as a wrong value here or as a crash of this process (which the driver reports for C06)
+                "C06" => { for (nm, f_) in [("C04", sweeps::sweep_c04 as fn(&str, u64) -> (usize, Vec<String>)), ("C05", sweeps::sweep_c05), ("C07", sweeps::sweep_c07), ("C01", sweeps::sweep_c01), ("C08", sweeps::sweep_c08), ("C19", sweeps::sweep_c19)] {
+                               eprintln!("SWEEP {}", nm); let (n, f) = f_(tier, seed); total += n; fails.extend(f.into_iter().filter(|x| !x.contains("pli_score_u8_generic_overflow"))); } }
                 "C19" => { let (n, f) = sweeps::sweep_c19(tier, seed); total += n; fails.extend(f); }
                 "C14" => { let (n, f) = io::sweep_c14(tier, seed, unit_fmt(unit)); total += n; fails.extend(f); }
                 "C15" => { let (n, f) = io::sweep_c15(tier, seed, unit_fmt(unit)); total += n; fails.extend(f); }
